@@ -110,7 +110,7 @@ def conform_engine(chk, items, name="engine"):
     groups = {}
     for (label, prog, ext, tr, sched) in items:
         groups.setdefault(label, (prog, []))[1].append((tr, sched))
-    cap = 40 if chk.quick else 400
+    cap = 30 if chk.quick else 400
     rng = random.Random(chk.seed + 11)
     jobs = []
     for gi, (label, (prog, trs)) in enumerate(sorted(groups.items())):
@@ -140,10 +140,10 @@ def conform_engine(chk, items, name="engine"):
         f = d / "traces.json"
         f.write_text(json.dumps({"traces": [t for (t, _s) in traces]}))
         res = tlc.run(d / ("MC_te%d.tla" % gi), d / ("MC_te%d.cfg" % gi), workdir=chk.work, deadlock=False, coverage=False,
-                      workers=2, timeout=900, env={"TRACE_FILE": str(f)})
+                      workers=1, timeout=900, env={"TRACE_FILE": str(f)}, jvm_opts=tlc.LIGHT)
         return res
 
-    with ThreadPoolExecutor(max_workers=6) as ex:
+    with ThreadPoolExecutor(max_workers=8) as ex:
         results = list(ex.map(one, jobs))
     ok = lines_ok = unsupported = 0
     drift = []
